@@ -11,7 +11,6 @@
     `gfpWords` / `gfpChain`    frame-pointer chains (x86, x86-64 non-Windows, ARM iOS, ARM64 ×2)
     `gcfiWords` / `gcfiChain`  canonical STACK CFI chains (frame sizes in words, saves-fp flags,
                                leaf first frame), all seven context kinds / modes
-    `gscanWords` / `gscanChain` scan-only chains (junk words below 4096, MIPS32 4-word skip)
 -/
 import MdModel.Walk.Layout
 namespace MdModel.Walk
@@ -118,45 +117,5 @@ def gcfiFramesOk (a : Arch) (mask : Nat) (frames : List CfiFr) : Bool :=
   frames.all fun c =>
     decide (4096 ≤ c.ret) && decide (c.ret ≤ a.regMax) && decide (stripOf a mask c.ret = c.ret) &&
     (c.n == 0 || !c.saves || (decide (2 ≤ c.n) && decide (c.fpv ≤ a.regMax) && decide (stripOf a mask c.fpv = c.fpv)))
-
-/-! ### scan-only chains
-
-  `gen_chain`, technique `scan`: the context has `sp = addr s0`, frame pointer 0; every frame is
-  `junk ++ [ret]` with junk words below 4096 (on MIPS32 every frame but the first has at least
-  four, which the scanner skips); then `tail` zero words (`tail = 0`: the stack ends with the
-  outermost return-address slot). -/
-
-def gscanBody : List (List Nat × Nat) → List Nat
-  | [] => []
-  | (junk, ret) :: rest => junk ++ [ret] ++ gscanBody rest
-
-def gscanWords (s0 tail : Nat) (frames : List (List Nat × Nat)) : List Nat :=
-  List.replicate s0 0 ++ gscanBody frames ++ List.replicate tail 0
-
-def gscanChain (p base : Nat) : Nat → List (List Nat × Nat) → List Exp
-  | _, [] => []
-  | s, (junk, ret) :: rest =>
-    { ret := ret, sp := pAddr p base (s + junk.length + 1), fp := none } ::
-      gscanChain p base (s + junk.length + 1) rest
-
-/-- the scan windows of the property text (`linkScan`) -/
-def gscanWindow (a : Arch) (first : Bool) : Nat :=
-  match a with
-  | .mips32 => if first then 256 else 252
-  | .mips64 => 128
-  | _ => if first then 160 else 40
-
-/-- parameter ranges of the scan generator, and the side condition on the environment: junk words
-    are below 4096 and no valid instruction, return addresses are; junk counts stay inside the
-    windows (MIPS32: at least four words on every frame but the first, the skip) -/
-def gscanFramesOk (env : Env) (a : Arch) : Bool → List (List Nat × Nat) → Bool
-  | _, [] => true
-  | first, (junk, ret) :: rest =>
-    let skip := if a = .mips32 ∧ !first then 4 else 0
-    decide (skip ≤ junk.length) && decide (junk.length - skip < gscanWindow a first) &&
-    (junk.drop skip).all (fun w => decide (w < 4096) && !instrValid env a w) &&
-    junk.all (fun w => decide (w < 4096)) &&
-    decide (4096 ≤ ret) && decide (ret ≤ a.regMax) && instrValid env a ret &&
-    gscanFramesOk env a false rest
 
 end MdModel.Walk
